@@ -3,7 +3,8 @@ trackers, the matching request for the Lean controller model (`c07.run`), the tr
 the property monitors.
 
 A *case* is a JSON-able dict
-  {"numbers": "Q"|"F", "dt", "t_start", "t_end", "u0", "eq": "one"|"time", "solver", "backend",
+  {"numbers": "Q"|"F", "dt", "t_start", "t_end", "u0", "eq": "one"|"time"|"lin"|"lint"|"hook" (+"a"), "solver", "backend",
+   "jit": bool (numba backend: compiled, else the same source under NUMBA_DISABLE_JIT=1),
    "N": whole-range step count or None,
    "trackers": [{"kind": "callback"|"storage"|"data", "sched": {...}, "stops": [[call, "S"|"F", msg], ..]}]}
 Everything the real code is handed is a Python float; "Q" cases use dyadic numbers only (float
@@ -22,6 +23,14 @@ EPS = 1e-6  # the literal of `stepper_atol = 1e-6 * dt`
 FIXED_SOLVERS = ["euler", "runge-kutta", "implicit", "crank-nicolson", "adams-bashforth"]
 # the one-step map of the scheme for u' = t is u + dt*(t + shift*dt)
 TIME_SHIFT = {"euler": 0.0, "implicit": 1.0, "runge-kutta": 0.5, "crank-nicolson": 0.5, "adams-bashforth": 0.5}
+# equations: u' = 1, u' = t (state-independent: the state counts steps / sums times) and the state-dependent
+# u' = a*u, u' = a*u + t (a solver whose own state - Adams-Bashforth's previous state, the implicit solvers'
+# fixed-point iterate - is disturbed by a tracker interrupt ends in a different state)
+# "hook": u' = 1 with a post-step hook that keeps a counter in `post_step_data` (another piece of stepper state that
+# must survive a tracker interrupt): `data += 1; state += a*data`
+AUTONOMOUS = ("one", "lin", "hook")
+STATE_DEPENDENT = ("lin", "lint")
+IMPLICIT_MAXITER, IMPLICIT_MAXERROR = 100, 1e-4  # defaults of ImplicitSolver / CrankNicolsonSolver
 
 _classes = {}
 
@@ -39,30 +48,59 @@ def classes():
     logging.getLogger("pde").setLevel(logging.CRITICAL)
 
     class CountingPDE(PDEBase):
-        """u' = 1 (autonomous, the state counts the steps) or u' = t (non-autonomous)"""
+        """u' = 1 (autonomous, the state counts the steps), u' = t (non-autonomous), u' = a*u (autonomous,
+        state-dependent) or u' = a*u + t"""
 
         check_implementation = False
 
-        def __init__(self, kind):
+        def __init__(self, kind, a=0.0):
             super().__init__()
             self.kind = kind
+            self.a = float(a)
 
         def evolution_rate(self, state, t=0):
             r = state.copy()
-            if self.kind == "one":
+            if self.kind in ("one", "hook"):
                 r.data[...] = 1.0
-            else:
+            elif self.kind == "time":
                 r.data[...] = t
+            elif self.kind == "lin":
+                r.data[...] = self.a * state.data
+            elif self.kind == "lint":
+                r.data[...] = self.a * state.data + t
+            else:
+                raise ValueError(self.kind)
             return r
 
         def make_evolution_rate(self, state, backend):
-            if self.kind == "one":
+            a = self.a
+            if self.kind in ("one", "hook"):
                 def rhs(arr, t):
                     return np.ones_like(arr)
-            else:
+            elif self.kind == "time":
                 def rhs(arr, t):
                     return np.full_like(arr, t)
+            elif self.kind == "lin":
+                def rhs(arr, t):
+                    return a * arr
+            elif self.kind == "lint":
+                def rhs(arr, t):
+                    return a * arr + t
+            else:
+                raise ValueError(self.kind)
             return rhs
+
+        def make_post_step_hook(self, state, backend="numpy"):
+            if self.kind != "hook":
+                raise NotImplementedError  # the solver then installs its no-op hook
+            a = self.a
+
+            def post_step_hook(state_data, t, post_step_data):
+                post_step_data += 1.0
+                state_data += a * post_step_data
+                return state_data, post_step_data
+
+            return post_step_hook, 0.0
 
     class OracleInterrupts(InterruptsBase):
         """adversarial schedule: prepared answers, one per call, `inf` afterwards"""
@@ -203,7 +241,8 @@ def execute(case):
 
     grid = pde.UnitGrid([case.get("cells", 1)])
     initial = pde.ScalarField(grid, case["u0"], dtype=complex if case.get("state_complex") else None)
-    eq = C["CountingPDE"](case["eq"])
+    initial_before = (initial.data.copy(), initial.data.dtype, initial.label, initial._data_full.copy())
+    eq = C["CountingPDE"](case["eq"], case.get("a", 0.0))
     if case.get("pde_complex"):
         eq.complex_valued = True  # the controller then converts (and must still copy) the initial state
     out = {"error": None}
@@ -215,9 +254,15 @@ def execute(case):
     try:
         for idx, tr in enumerate(case["trackers"]):
             stops = {int(k): (kind, msg) for k, kind, msg in tr.get("stops", [])}
-            intr = make_interrupt(tr["sched"], tr.get("via_parse", False))
             slog = []
-            record_interrupt(intr, slog)
+            if tr.get("shared_with") is not None:
+                # the user hands the *same* interrupt object to two trackers (TrackerCollection.from_data must
+                # give each its own copy); such objects are not instrumented (a copy would share the wrappers)
+                intr = trackers[tr["shared_with"]].interrupt
+            else:
+                intr = make_interrupt(tr["sched"], tr.get("via_parse", False))
+                if not tr.get("no_record"):
+                    record_interrupt(intr, slog)
             scheds.append(slog)
             obj = make_tracker(tr["kind"], make_observer(idx, stops), intr)
             obj._rec = rec
@@ -247,7 +292,13 @@ def execute(case):
         successful=bool(info["controller"]["successful"]),
         initial_after=float(np.real(initial.data.flat[0])),
         initial_uniform=bool(np.all(initial.data == initial.data.flat[0])),
-        same_object=bool(final is initial or np.shares_memory(final.data, initial.data)),
+        # every cell, real and imaginary part, dtype, label and the ghost cells of the caller's object
+        initial_intact=bool(initial.data.dtype == initial_before[1] and initial.label == initial_before[2]
+                            and initial.data.shape == initial_before[0].shape
+                            and initial.data.tobytes() == initial_before[0].tobytes()
+                            and initial._data_full.tobytes() == initial_before[3].tobytes()),
+        same_object=bool(final is initial or np.shares_memory(final._data_full, initial._data_full)),
+        state_imag=float(np.max(np.abs(np.imag(data)))) if data.size else 0.0,
         sched_log=scheds,
         times=[], frames=[],
         backend_used=str(info["solver"].get("backend", {}).get("name", "?")) if isinstance(info["solver"].get("backend"), dict) else "?",
@@ -268,6 +319,36 @@ def execute(case):
 def execute_many(cases, env=None, procs=8):
     from harness.common.isolated import run_many
     return run_many("harness.common.ctrl", "execute", cases, env=env, procs=procs)
+
+
+def exec_mode(case):
+    """numpy | numba-S (numba backend, source semantics: NUMBA_DISABLE_JIT=1) | numba-J (compiled)"""
+    if case.get("backend") != "numba":
+        return "numpy"
+    return "numba-J" if case.get("jit") else "numba-S"
+
+
+def mode_env(mode):
+    env = {"NUMBA_DISABLE_JIT": "1"} if mode == "numba-S" else {"NUMBA_DISABLE_JIT": "0"}
+    env["NUMBA_NUM_THREADS"] = "1"
+    return env
+
+
+def execute_as_recorded(cases, procs=4):
+    """run every case in the execution mode recorded in it (replay / search): numpy in-process, the numba
+    backend in a fresh interpreter with or without JIT"""
+    out = [None] * len(cases)
+    by_mode = {}
+    for i, c in enumerate(cases):
+        by_mode.setdefault(exec_mode(c), []).append(i)
+    for mode, idxs in by_mode.items():
+        if mode == "numpy":
+            res = [execute(cases[i]) for i in idxs]
+        else:
+            res = execute_many([cases[i] for i in idxs], env=mode_env(mode), procs=procs)
+        for i, r in zip(idxs, res):
+            out[i] = {"error": r} if isinstance(r, str) else r
+    return out
 
 
 # ------------------------------------------------------------------------------------------
@@ -310,6 +391,12 @@ def model_request(case, mode, oracle_for=()):
     if eq == "time" and TIME_SHIFT.get(case["solver"], 0.0) != 0.0:
         req["eq"] = "timeshift"
         req["shift"] = enc(TIME_SHIFT[case["solver"]] * case["dt"])
+    if eq == "hook":
+        req["a"] = enc(case["a"])
+    if eq in STATE_DEPENDENT:
+        # the solver's own operations on u' = a*u (+ t): Model/StepMaps.lean
+        req.update(a=enc(case["a"]), solver=case["solver"], cells=int(case.get("cells", 1)),
+                   maxiter=IMPLICIT_MAXITER, maxerr2=enc(IMPLICIT_MAXERROR ** 2))
     return req
 
 
@@ -322,12 +409,23 @@ def oracle_answers(real, idxs):
     return {i: [a for _k, _t, a in real["sched_log"][i]] for i in idxs}
 
 
+def state_close(case, x, ref, rtol=1e-10):
+    """round-off comparison of two states: relative to the state itself for the state-dependent equations
+    (a decaying solution must not hide behind an absolute tolerance), to max(1, |state|) for u'=1, u'=t;
+    NaN-safe (a non-finite value is a difference)"""
+    floor = 1e-300 if case["eq"] in STATE_DEPENDENT else 1.0
+    return abs(x - ref) <= rtol * max(floor, abs(ref), abs(x))
+
+
 def compare(case, real, model, mode, exact_state=True, close_times=False):
     """first difference between the real run and the model answer, or None.  `close_times`: compare
     numbers to 1e-10 of the time scale instead of bit for bit (JIT-compiled code in Float mode, where
     LLVM may contract a*b+c into one fused operation)"""
-    dec = (lambda s: unq(s)) if mode == "Q" else (lambda s: unfbits(s))
-    same = (lambda x, s: q(x) == s) if mode == "Q" else (lambda x, s: fbits(x) == s)
+    def dec(s):
+        if s == "ConvergenceError":
+            return math.nan
+        return unq(s) if mode == "Q" else unfbits(s)
+    same = (lambda x, s: math.isfinite(x) and q(x) == s) if mode == "Q" else (lambda x, s: fbits(x) == s)
     if close_times:
         scale = max(abs(case["t_start"]), abs(case["t_end"]), case["dt"])
         same = lambda x, s: abs(x - float(dec(s))) <= 1e-10 * scale
@@ -338,10 +436,11 @@ def compare(case, real, model, mode, exact_state=True, close_times=False):
         exact_state = False
 
     def same_state(x, s):
+        if s == "ConvergenceError":
+            return False
         if exact_state:
             return same(x, s)
-        m = float(dec(s))
-        return abs(x - m) <= state_rtol * max(1.0, abs(m), abs(x))
+        return state_close(case, x, float(dec(s)), state_rtol)
 
     if real.get("error"):
         return {"what": "real run raised", "impl": real["error"]}
@@ -397,12 +496,21 @@ def exec_groups(ctx, groups_by_mode):
         if mode == "numpy":
             res = [execute(c) for c in flat]
         else:
-            env = {"NUMBA_DISABLE_JIT": "1"} if mode == "numba-S" else {"NUMBA_DISABLE_JIT": "0"}
-            env["NUMBA_NUM_THREADS"] = "1"
-            res = execute_many(flat, env=env, procs=ctx.budget(8, 16))
+            res = execute_many(flat, env=mode_env(mode), procs=ctx.budget(8, 16))
         it = iter(res)
         results[mode] = [[next(it) for _ in g] for g in groups]
     return results
+
+
+def bit_exact_state(case, mode):
+    """is the model state a bit-exact reference for the real state?  Euler only (the other schemes are compared
+    to 1e-10); with exact numbers (mode Q) only while float arithmetic is exact, i.e. for u'=1, u'=t; with the
+    Float model whenever the code performs the source's IEEE operations (not under JIT: fused multiply-add)"""
+    if case["solver"] != "euler":
+        return False
+    if case["eq"] in STATE_DEPENDENT:
+        return mode == "F" and not case.get("jit")
+    return True
 
 
 def check_run(ctx, case, real, batch, pending):
@@ -419,24 +527,28 @@ def check_run(ctx, case, real, batch, pending):
             ctx.disagree("correspondence", case, "geometric schedule", real["sched_log"][i][:20],
                          f"answers of the geometric interrupt of tracker {i} are not a geometric schedule")
     i1 = batch.add("c07.run", model_request(case, mode, oracle_answers(real, orc)))
-    i2 = None
+    i2 = i3 = None
+    allg = [i for i, tr in enumerate(case["trackers"]) if tr["sched"]["kind"] == "geometric"]
     if mode == "F":
         # the same float inputs through the exact model: how often do exact and IEEE arithmetic part ways?
-        allg = [i for i, tr in enumerate(case["trackers"]) if tr["sched"]["kind"] == "geometric"]
         i2 = batch.add("c07.run", model_request(case, "Q", oracle_answers(real, allg)))
-    pending.append((case, real, i1, i2))
+    elif case["eq"] in STATE_DEPENDENT and bit_exact_state(case, "F") and not (allg and not all(real["sched_log"][i] for i in allg)):
+        # dyadic numbers, state-dependent equation: times are exact but the state rounds; the Float
+        # instantiation of the same model definitions must reproduce the interpreted solver bit for bit
+        i3 = batch.add("c07.run", model_request(case, "F", oracle_answers(real, allg)))
+    pending.append((case, real, i1, i2, i3))
 
 
 def resolve(ctx, pending, answers, batch2):
     """compare; geometric mismatches in exact mode are retried with the recorded answers as oracle"""
     retry = []
-    for case, real, i1, i2 in pending:
+    for case, real, i1, i2, i3 in pending:
         ctx.impl_traces += 1
         st, val = answers[i1]
         if st != "ok":
             ctx.disagree("correspondence", case, f"model error: {val}", None)
             continue
-        d = compare(case, real, val, case["numbers"], exact_state=case["solver"] == "euler")
+        d = compare(case, real, val, case["numbers"], exact_state=bit_exact_state(case, case["numbers"]))
         if case["numbers"] == "F" and case.get("jit"):
             # JIT-compiled steppers may fuse `t_start + i*dt` / `state + dt*rate` into one rounding (LLVM fma
             # contraction): not the IEEE operations of the source, so the Float model is not a bit-exact
@@ -463,13 +575,20 @@ def resolve(ctx, pending, answers, batch2):
                         and all(a[0] == b[0] and abs(float(unq(a[1])) - unfbits(b[1])) <= 1e-9 * max(1.0, abs(unfbits(b[1])))
                                 for a, b in zip(val2["trace"], val["trace"])))
                 ctx.hist("exact-vs-float model", "same trace" if same else "parted at a rounding tie")
+        if i3 is not None:
+            st3, val3 = answers[i3]
+            d3 = compare(case, real, val3, "F", exact_state=True) if st3 == "ok" else {"what": f"model error: {val3}"}
+            ctx.hist("state-dependent equation vs Float model", "bit-identical" if d3 is None else "differs")
+            if d3 is not None:
+                ctx.disagree("correspondence", case, d3.get("model"), d3.get("impl"),
+                             d3["what"] + " (Float model of the interpreted solver, state-dependent equation)")
     return retry
 
 
 def resolve_retry(ctx, retry, answers2):
     for case, real, j, d in retry:
         st, val = answers2[j]
-        d2 = compare(case, real, val, "Q", exact_state=case["solver"] == "euler") if st == "ok" else {"what": f"model error {val}"}
+        d2 = compare(case, real, val, "Q", exact_state=bit_exact_state(case, "Q")) if st == "ok" else {"what": f"model error {val}"}
         geo_ok = all(geometric_answers_ok(case["trackers"][i]["sched"], real["sched_log"][i])
                      for i, tr in enumerate(case["trackers"]) if tr["sched"]["kind"] == "geometric")
         if d2 is None and geo_ok:
@@ -494,27 +613,91 @@ def geometric_answers_ok(s, log):
 
 # ------------------------------------------------------------------------------------------
 # reference quantities for the monitors (independent of the Lean model)
-def rate_shift(case):
-    return TIME_SHIFT[case["solver"]] * case["dt"]
+def rate_fn(case):
+    """the right-hand side on one cell, as `CountingPDE` computes it"""
+    eq, a = case["eq"], case.get("a", 0.0)
+    if eq in ("one", "hook"):
+        return lambda u, t: 1.0
+    if eq == "time":
+        return lambda u, t: t
+    if eq == "lin":
+        return lambda u, t: a * u
+    if eq == "lint":
+        return lambda u, t: a * u + t
+    raise ValueError(eq)
+
+
+def _fixpoint(it, x, cells):
+    """the convergence loop of implicit.py / crank_nicolson.py (None: ConvergenceError)"""
+    maxerr2 = IMPLICIT_MAXERROR ** 2
+    for _ in range(IMPLICIT_MAXITER):
+        prev = x
+        x = it(x)
+        d = x - prev
+        err = 0.0
+        for _j in range(cells):
+            err += d * d
+        err /= cells
+        if err < maxerr2:
+            return x
+    return None
 
 
 def iterate_states(case, n):
-    """u_0..u_n: `n` applications of the scheme's one-step map at times t_start + i*dt"""
+    """u_0..u_n: `n` applications of the solver's one-step map at times t_start + i*dt - an own Python copy
+    of the update formulas of the five fixed-step solvers (same float operations in the same order as the
+    interpreted source); the list ends early where a step would raise ConvergenceError"""
+    f = rate_fn(case)
     u = case["u0"]
     dt, t0 = case["dt"], case["t_start"]
+    solver, cells = case["solver"], int(case.get("cells", 1))
     out = [u]
-    sh = rate_shift(case)
+    prev = None
+    hook_data = 0.0
     for i in range(n):
-        if case["eq"] == "one":
-            u = u + dt * 1.0
+        t = t0 + i * dt
+        if solver == "euler":
+            u = u + dt * f(u, t)
+        elif solver == "runge-kutta":
+            k1 = dt * f(u, t)
+            k2 = dt * f(u + 0.5 * k1, t + 0.5 * dt)
+            k3 = dt * f(u + 0.5 * k2, t + 0.5 * dt)
+            k4 = dt * f(u + k3, t + dt)
+            u = u + (k1 + 2 * k2 + 2 * k3 + k4) / 6
+        elif solver == "implicit":
+            ut = u
+            u = _fixpoint(lambda x: ut + dt * f(x, t + dt), ut + dt * f(ut, t), cells)
+        elif solver == "crank-nicolson":
+            ut, rate_t = u, f(u, t)
+            it = lambda x: ut + dt / 2 * (f(x, t + dt) + rate_t)
+            u = _fixpoint(it, it(ut), cells)
+        elif solver == "adams-bashforth":
+            if prev is None:
+                prev = u - dt * f(u, t0)
+            rhs_prev, rhs_cur = f(prev, t - dt), f(u, t)
+            prev = u
+            u = u + dt * (1.5 * rhs_cur - 0.5 * rhs_prev)
         else:
-            u = u + dt * ((t0 + i * dt) + sh)
+            raise ValueError(solver)
+        if u is None:
+            break
+        if case["eq"] == "hook":
+            hook_data += 1.0
+            u = u + case["a"] * hook_data
         out.append(u)
     return out
 
 
 def _tol(case):
     return 1e-9 * max(abs(case["t_start"]), abs(case["t_end"]), case["dt"], 1e-300)
+
+
+def state_matches_iterate(case, x, ref, exact):
+    """does an observed state equal the reference iterate?  bit for bit where the reference performs the very
+    float operations of the run (interpreted Euler with exact times), else to round-off; NaN-safe"""
+    if exact and case["solver"] == "euler" and not (case["eq"] in STATE_DEPENDENT and case.get("jit")):
+        return x == ref
+    return state_close(case, x, ref)
 
 
 def monitor_accounting(case, real):
@@ -529,39 +712,70 @@ def monitor_accounting(case, real):
     if case.get("N") is not None:
         if steps != case["N"]:
             bad.append(("steps == N for a range of N steps", steps, case["N"]))
-        if abs(tf - t1) > tol + abs(case.get("delta") or 0.0):
+        if not (abs(tf - t1) <= tol + abs(case.get("delta") or 0.0)):
             bad.append(("t_final == t_end for a range of N steps", tf, t1))
-    if abs(tf - (t0 + steps * dt)) > tol:
+    if not (abs(tf - (t0 + steps * dt)) <= tol):
         bad.append(("t_final == t_start + steps*dt", tf, t0 + steps * dt))
     if t1 >= t0 and not abs(tf - t1) < dt * (1 + (0 if exact else 1e-9)):
         bad.append(("|t_final - t_end| < dt", tf - t1, f"< {dt}"))
-    ref = iterate_states(case, steps)[-1]
-    if not (abs(real["state"] - ref) <= (0.0 if exact and case["solver"] == "euler" else 1e-10 * max(1.0, abs(ref)))):
-        bad.append(("final state == steps applications of the one-step map", real["state"], ref))
-    if not real["uniform"]:
+    states = iterate_states(case, steps)
+    if len(states) <= steps:
+        bad.append(("final state == steps applications of the one-step map", real["state"],
+                    f"the reference iteration does not converge at step {len(states) - 1}"))
+    elif not state_matches_iterate(case, real["state"], states[steps], exact):
+        bad.append(("final state == steps applications of the one-step map", real["state"], states[steps]))
+    if not real["uniform"] or not (real.get("state_imag", 0.0) == 0.0):
         bad.append(("all cells evolve alike", "non-uniform", "uniform"))
-    if real["initial_after"] != case["u0"] or not real["initial_uniform"] or real["same_object"]:
+    if (real["initial_after"] != case["u0"] or not real["initial_uniform"] or real["same_object"]
+            or not real.get("initial_intact", True)):
         bad.append(("caller's initial state object left unmodified",
-                    {"value": real["initial_after"], "aliased": real["same_object"]}, case["u0"]))
+                    {"value": real["initial_after"], "aliased": real["same_object"],
+                     "data/dtype/label intact": real.get("initial_intact")}, case["u0"]))
     return bad
 
 
 def monitor_independence(group):
-    """C07 across tracker sets: `group` = [(case, real), ...] with identical base parameters"""
+    """C07 across tracker sets: `group` = [(case, real), ...] with identical base parameters; the first
+    member is the reference (in the generated groups: the run without any tracker)"""
     bad = []
     (c0, r0) = group[0]
     for c, r in group[1:]:
         if r["steps"] != r0["steps"]:
             bad.append(("steps independent of the trackers", r["steps"], r0["steps"]))
-        if c0["eq"] == "one":
+        if c0["eq"] in AUTONOMOUS:
             if fbits(r["state"]) != fbits(r0["state"]):
                 bad.append(("final state bit-identical for every tracker set (autonomous)", r["state"], r0["state"]))
-        elif abs(r["state"] - r0["state"]) > 1e-10 * max(1.0, abs(r0["state"])):
+        elif not state_close(c0, r["state"], r0["state"]):
             bad.append(("final state identical to round-off for every tracker set", r["state"], r0["state"]))
         tol = 0.0 if c0["numbers"] == "Q" else _tol(c0)
-        if abs(r["t_final"] - r0["t_final"]) > tol:
+        if not (abs(r["t_final"] - r0["t_final"]) <= tol):
             bad.append(("t_final independent of the trackers", r["t_final"], r0["t_final"]))
     return bad
+
+
+# the corners in which the unchanged py-pde deviates from the literal statement of C08; a monitor failure gets one
+# of these keys only if the monitor has recognised the corner from the data of the failing run
+KNOWN_CORNERS = {
+    "scheduled-at-t_end-missed": {
+        "what": "every scheduled time <= t_end is served", "corner": "t_end = t_final + 1e-6*dt"},
+    "adaptive-served-with-another-tracker": {
+        "what": "adaptive stepper serves each scheduled time exactly at it", "corner": "another tracker due up to dt/2 earlier"},
+    "whole-range-sliver-frame": {
+        "call_site": "Controller._run_main_process final handle (atol = 1e-6*dt)",
+        "what": "floor(T/D)+1 frames on a range that is a whole number of steps",
+        "corner": "scheduled time in (t_end, t_end + 1e-6*dt) is served at t_end"},
+    "extra-frame-before-final-time": {
+        "call_site": "Controller._run_main_process main loop (tracker_atol = dt/2)",
+        "what": "the one frame more than floor(T/D)+1 is taken at the final time",
+        "corner": "scheduled time in (t_end, t_end + dt/2) is served one step before t_final"},
+}
+
+
+def failure_key(what, corner=None):
+    """key of a C08 monitor failure for known_findings.json"""
+    if corner in KNOWN_CORNERS:
+        return dict(KNOWN_CORNERS[corner])
+    return {"what": what.split(" of ")[0][:60]}
 
 
 def final_handle_time(case, t):
@@ -577,7 +791,6 @@ def monitor_trackers(case, real):
     tol = 0.0 if exact else _tol(case)
     steps, tf = real["steps"], real["t_final"]
     states = iterate_states(case, steps)
-    stol = (lambda ref: 0.0 if exact and case["solver"] == "euler" else 1e-10 * max(1.0, abs(ref)))
     n_tr = len(case["trackers"])
     per = [[] for _ in range(n_tr)]
     prev_t = None
@@ -586,11 +799,12 @@ def monitor_trackers(case, real):
         if prev_t is not None and t < prev_t:
             bad.append(("handle calls ordered in time", t, f">= {prev_t}"))
         prev_t = t
-        n = round((t - t0) / dt)
-        if abs(t - (t0 + n * dt)) > tol or not 0 <= n <= steps:
+        n = round((t - t0) / dt) if math.isfinite(t) else -1
+        if not (abs(t - (t0 + n * dt)) <= tol) or not 0 <= n <= steps:
             bad.append(("tracker time is a simulation time t_start + n*dt", t, f"n={n}"))
-        elif abs(u - states[n]) > stol(states[n]):
-            bad.append((f"state seen at t={t} is the state after n={n} steps", u, states[n]))
+        elif n >= len(states) or not state_matches_iterate(case, u, states[n], exact):
+            bad.append(("state shown to a tracker at t_start + n*dt is the state after n steps", {"t": t, "n": n, "state": u},
+                        states[n] if n < len(states) else "reference iteration does not converge"))
     for i, ev in enumerate(per):
         for (a, _), (b, _) in zip(ev, ev[1:]):
             if not b > a:
@@ -607,42 +821,66 @@ def monitor_trackers(case, real):
         if real["frames"][i] != exp_f:
             bad.append((f"recorded frames of {tr['kind']} tracker {i}", real["frames"][i], exp_f))
     stopped = bool(real["raised"])
-    # constant schedules with D >= dt: every scheduled time served exactly once within dt/2
+    # constant schedules with D >= dt: every scheduled time served exactly once within dt/2, and the frame count
+    # of the property text, clause by clause (the literal statement; the corners in which the unchanged code
+    # deviates from it are recognised from the data of the run and named in the 4th entry, see KNOWN_CORNERS)
+    whole = case.get("N") is not None and not (case.get("delta") or 0.0)
     for i, tr in enumerate(case["trackers"]):
         s = tr["sched"]
-        if s["kind"] != "constant" or s["dt"] < dt:
+        if s["kind"] != "constant" or not (s["dt"] >= dt):
             continue
         D = s["dt"]
         tau0 = t0 if s.get("t_start") is None else max(t0, s["t_start"])
         calls = [t for t, _ in per[i]]
         for k, t in enumerate(calls):
             sig = tau0 + k * D
-            if abs(t - sig) > dt / 2 + tol:
+            if not (abs(t - sig) <= dt / 2 + tol):
                 bad.append((f"call {k} of constant tracker {i} within dt/2 of its scheduled time", t, sig))
                 break
-        if not stopped and t1 >= t0:
-            F = Fraction if exact else float
-            sig = [F(tau0) + k * F(D) for k in range(len(calls) + 3)]
-            # the code's own scheduled times: `_t_next += D` starting at tau0 (no catch-up for D >= dt), so
-            # "scheduled time <= t_end" is decided on exactly the numbers the code compares (no tolerance)
-            acc, a = [], tau0
-            for _ in range(len(calls) + 3):
-                acc.append(a)
-                a = a + D
-            lo = sum(1 for x in acc if x <= t1)
-            # the final handle (atol = 1e-6 dt) also serves a scheduled time in the sliver
-            # (t_end, t_end + 1e-6 dt): the code's round-off allowance
-            hi = sum(1 for x in sig if x < F(t1) + F(EPS) * F(dt) + F(tol) + abs(F(case.get("delta") or 0.0)))
-            if len(calls) < lo:
-                bad.append((f"every scheduled time <= t_end of constant tracker {i} is served", 
-                            {"calls": calls[-3:], "n_calls": len(calls), "t_final": tf},
-                            {"scheduled times <= t_end": lo, "last": acc[lo - 1], "t_end": t1}))
-            elif case.get("N") is not None:
-                if not len(calls) <= hi:
-                    bad.append((f"constant tracker {i} is handled floor(T/D)+1 times on a whole range", len(calls),
-                                lo if lo == hi else f"{lo}..{hi}"))
-            elif not len(calls) <= hi + 1:
-                bad.append((f"constant tracker {i} is handled floor(T/D)+1 times or once more", len(calls), f"{lo}..{hi + 1}"))
+        if stopped or not t1 >= t0:
+            continue
+        # the code's own scheduled times: `_t_next += D` starting at tau0 (no catch-up for D >= dt), so
+        # "scheduled time <= t_end" is decided on exactly the numbers the code compares
+        acc, a = [], tau0
+        for _ in range(len(calls) + 3):
+            acc.append(a)
+            a = a + D
+        lo = sum(1 for x in acc if x <= t1)           # floor(T/D) + 1 for tau0 = t_start
+        lo_hi = sum(1 for x in acc if x <= t1 + tol)  # the same up to round-off (decimal numbers)
+        n = len(calls)
+        what_count = "floor(T/D)+1" if tau0 == t0 else "#{k: tau0 + k*D <= t_end}"
+        if n < lo:
+            sig = acc[n]
+            corner = None
+            if not (tf > sig - EPS * dt) and not (tf < t1 - EPS * dt):
+                # the loop stopped at t_final >= t_end - 1e-6*dt and the final handle tests t > t_next - 1e-6*dt
+                # strictly: a time scheduled at t_end = t_final + 1e-6*dt is due for neither
+                corner = "scheduled-at-t_end-missed"
+            bad.append((f"every scheduled time <= t_end of constant tracker {i} is served",
+                        {"calls": calls[-3:], "n_calls": n, "t_final": tf},
+                        {"scheduled times <= t_end": lo, "first missed": sig, "t_end": t1}, corner))
+        elif whole:
+            if n > lo_hi:
+                sig = acc[n - 1]
+                corner = None
+                if n == lo_hi + 1 and t1 < sig <= t1 + EPS * dt + tol and tf > sig - EPS * dt and abs(calls[-1] - tf) <= tol:
+                    corner = "whole-range-sliver-frame"
+                bad.append((f"constant tracker {i} is handled {what_count} times on a range that is a whole number of steps",
+                            {"n_calls": n, "last calls": calls[-3:], "t_final": tf},
+                            {"expected": lo if lo == lo_hi else f"{lo}..{lo_hi}", "scheduled": acc[max(0, n - 2):n], "t_end": t1},
+                            corner))
+        else:
+            if n > lo_hi + 1:
+                bad.append((f"constant tracker {i} is handled {what_count} times or once more", n, f"{lo}..{lo_hi + 1}"))
+            elif n == lo_hi + 1 and not (abs(calls[-1] - tf) <= tol):
+                sig = acc[n - 1]
+                corner = None
+                if sig > t1 and calls[-1] < tf and calls[-1] > sig - dt / 2 - tol:
+                    # scheduled after t_end but within dt/2 of the last lattice time before t_final: served there
+                    corner = "extra-frame-before-final-time"
+                bad.append((f"the one frame more than {what_count} of constant tracker {i} is taken at the final time",
+                            {"last call": calls[-1], "t_final": tf, "n_calls": n},
+                            {"served scheduled time": sig, "t_end": t1, "scheduled times <= t_end": lo}, corner))
     # fixed lists whose entries inside the range are at least dt apart: each served exactly once within dt/2
     for i, tr in enumerate(case["trackers"]):
         s = tr["sched"]
@@ -655,7 +893,7 @@ def monitor_trackers(case, real):
             continue
         calls = [t for t, _ in per[i]]
         for k, t in enumerate(calls):
-            if k >= len(pts) or abs(t - pts[k]) > dt / 2 + tol:
+            if k >= len(pts) or not (abs(t - pts[k]) <= dt / 2 + tol):
                 bad.append((f"call {k} of fixed-list tracker {i} within dt/2 of its scheduled time", t,
                             pts[k] if k < len(pts) else "no entry left"))
                 break
@@ -674,7 +912,7 @@ def monitor_trackers(case, real):
         n = round((ts - t0) / dt)
         if steps != n:
             bad.append(("no step is taken after the stop request", steps, n))
-        if 0 <= n < len(states) and abs(real["state"] - states[n]) > stol(states[n]):
+        if 0 <= n < len(states) and not state_matches_iterate(case, real["state"], states[n], exact):
             bad.append(("final state is the state of the stop time", real["state"], states[n]))
         if real["trace"] and real["trace"][-1][1] != ts:
             bad.append(("last handle call is at the stop time", real["trace"][-1][1], ts))
@@ -702,11 +940,13 @@ def monitor_trackers(case, real):
     return bad
 
 
-def monitor_exact(case, real, strict_exact=False):
+def monitor_exact(case, real, strict_exact=True):
     """C08 for steppers that reach their target exactly (ScipySolver, adaptive steppers): calls at strictly
-    increasing action times; a constant schedule is never served late and at most dt/2 early; a single tracker
-    starting at t_start is served exactly at its scheduled times (`strict_exact`: demanded of every tracker,
-    which is what the property text says and what fails when another tracker is due up to dt/2 earlier)"""
+    increasing action times; a constant schedule starting at t_start is never served late and - the clause
+    "exactly at it for adaptive steppers", `strict_exact` - every call is exactly at its scheduled time.  The
+    unchanged code violates the clause when another tracker is due up to dt/2 earlier (both are served
+    together): recognised from the data of the run and named in the 4th entry (see KNOWN_CORNERS).
+    `strict_exact=False`: the clause is demanded of a single tracker only."""
     bad = []
     dt, t0, t1 = case["dt"], case["t_start"], case["t_end"]
     # adaptive steppers: the last step of a segment is `max(t_end - t, dt_min)` with dt_min = 1e-10, so the target
@@ -723,32 +963,47 @@ def monitor_exact(case, real, strict_exact=False):
         if rt == 0.0 and t not in action:
             bad.append(("tracker time is an action time (t_start, t_end or a scheduled time)", t, "one of the schedules"))
         ref = case["u0"] + (t - t0)
-        if case["eq"] == "one" and abs(u - ref) > 1e-6 * max(1.0, abs(ref)):
-            bad.append((f"state seen at t={t} is the state of that time", u, ref))
+        if case["eq"] == "one" and not (abs(u - ref) <= 1e-6 * max(1.0, abs(ref))):
+            bad.append(("state shown to a tracker is the state of that time", {"t": t, "state": u}, ref))
     for i, ev in enumerate(per):
         for a, b in zip(ev, ev[1:]):
             if not b > a:
                 bad.append((f"tracker {i} called at strictly increasing times", b, f"> {a}"))
     stopped = bool(real["raised"])
+
+    def another_on_time(i, t):
+        """is a tracker other than `i` served at `t` because its own action time is `t`?"""
+        for j in range(n_tr):
+            if j != i and any(abs(tt - t) <= rt for tt in per[j]) and \
+                    any(abs(a - t) <= rt for _k, _t, a in real["sched_log"][j]):
+                return True
+        return False
+
     for i, tr in enumerate(case["trackers"]):
         s = tr["sched"]
-        if s["kind"] != "constant" or s["dt"] <= 0:
+        if s["kind"] != "constant" or not s["dt"] > 0:
             continue
         D = s["dt"]
         tau0 = t0 if s.get("t_start") is None else max(t0, s["t_start"])
         a = tau0
         for k, t in enumerate(per[i]):
             if D >= dt:
-                if t > a + rt:
+                if not (t <= a + rt):
                     bad.append((f"call {k} of constant tracker {i} is not late", t, a))
                     break
-                if t < a - dt / 2 - rt:
+                if not case.get("round_off") and not (t >= a - dt / 2 - rt):
+                    # (fixed tolerance dt/2: ScipySolver(dt); the tolerance of an adaptive stepper follows its dt)
                     bad.append((f"call {k} of constant tracker {i} is at most dt/2 early", t, a))
                     break
-                exact_required = strict_exact or (n_tr == 1 and tau0 == t0)
+                # the property's schedule is t_start + k*D: trackers with an own start offset are outside the clause
+                # (a first scheduled time less than dt/2 after t_start is served at t_start)
+                exact_required = (strict_exact or n_tr == 1) and tau0 == t0
+                # a call at t_end for a scheduled time just beyond t_end is the "one frame more, at the final time"
                 sliver = abs(t - t1) <= rt and t1 < a < t1 + EPS * dt_eff + rt
-                if exact_required and abs(t - a) > rt and not sliver:
-                    bad.append((f"call {k} of constant tracker {i} exactly at its scheduled time (adaptive stepper)", t, a))
+                if exact_required and not (abs(t - a) <= rt) and not sliver:
+                    corner = "adaptive-served-with-another-tracker" if (t < a and another_on_time(i, t)) else None
+                    bad.append((f"call {k} of constant tracker {i} exactly at its scheduled time (adaptive stepper)",
+                                {"call": t, "all calls": per[i][:12]}, a, corner))
                     break
             a = a + D
         if D >= dt and not stopped and t1 >= t0:
@@ -773,7 +1028,7 @@ def monitor_exact(case, real, strict_exact=False):
                         [real["stop_reason"], real["successful"]], [exp_reason, kind == "F"]))
     elif real["stop_reason"] != "Reached final time":
         bad.append(("run without stop request reaches the final time", real["stop_reason"], "Reached final time"))
-    elif t1 >= t0 and abs(real["t_final"] - t1) > rt and not (t1 - t0 <= EPS * dt):
+    elif t1 >= t0 and not (abs(real["t_final"] - t1) <= rt) and not (t1 - t0 <= EPS * dt):
         # an exact stepper ends at t_end itself (or, after a last target within 1e-6*dt of it, just before)
         if not (t1 - EPS * dt_eff - rt <= real["t_final"] <= t1 + rt):
             bad.append(("exact stepper ends at t_end", real["t_final"], t1))
@@ -797,7 +1052,7 @@ def gen_base(rng, numbers, hist, max_steps=120):
     range); delta != 0 marks a range that is N steps long only up to |delta| < 1e-6*dt"""
     if numbers == "Q":
         dt = dyadic(rng, 1, 24, 6)
-        t0 = rng.choice([0.0, 0.0, dyadic(rng, 0, 64, 4), -dyadic(rng, 0, 16, 3)])
+        t0 = rng.choice([0.0, 0.0, dyadic(rng, 0, 64, 4), -dyadic(rng, 0, 16, 3)]) + 0.0  # (-0.0 + 0.0 = +0.0)
     else:
         dt = rng.choice(DECIMAL_DT)
         t0 = rng.choice(DECIMAL_T0)
@@ -841,6 +1096,33 @@ def gen_base(rng, numbers, hist, max_steps=120):
     hist("range", "shorter than a step")
     frac = rng.choice([0.25, 0.5, 0.75, 0.0625]) if numbers == "Q" else rng.choice([0.5, 0.3, 0.9, 0.01])
     return dt, t0, t0 + frac * dt, None, 0.0
+
+
+def gen_equation(rng, numbers, dt, t0, t1, hist, state_dependent=0.5):
+    """(eq, a, u0): u'=1 / u'=t or, with probability `state_dependent`, u'=a*u / u'=a*u+t.  `|a*dt| <= 1/2`
+    (every fixed-step scheme is stable and the fixed-point iterations of the implicit solvers contract), `a`
+    dyadic with few bits in dyadic mode; growing solutions only while a*T <= 3"""
+    if rng.random() >= state_dependent:
+        eq = rng.choice(["one", "time", "one", "time", "hook"])
+        u0 = rng.choice([0.0, 0.0, 1.0, dyadic(rng, 0, 16, 3)]) if numbers == "Q" else rng.choice([0.0, 0.1, 1.0, -0.3, 2.5])
+        hist("equation", eq)
+        a = 0.0
+        if eq == "hook":
+            a = rng.choice([0.5, 0.25, -0.125, 1.0, 0.0625]) if numbers == "Q" else rng.choice([0.1, 0.3, -0.05, 1.0])
+        return eq, a, u0
+    eq = rng.choice(["lin", "lin", "lint"])
+    if numbers == "Q":
+        z = rng.choice([0.5, 0.5, 0.25, 0.375, 0.125, 0.4375, 0.0625, 0.3125])
+        a = z * 2.0 ** math.floor(math.log2(1.0 / dt))  # |a*dt| in (z/2, z]
+        u0 = rng.choice([1.0, 1.0, -1.0, dyadic(rng, 1, 16, 3), 0.0 if eq == "lint" else 2.0])
+    else:
+        a = rng.choice([0.5, 0.3, 0.1, 0.05, 0.45, 0.01, 0.2]) / dt
+        u0 = rng.choice([1.0, 0.1, -0.3, 2.5, 0.0 if eq == "lint" else 1.7])
+    if rng.random() < 0.75 or a * max(t1 - t0, 0.0) > 3.0:
+        a = -a
+    hist("equation", eq + (" (decaying)" if a < 0 else " (growing)"))
+    hist("|a*dt|", min(5, int(abs(a * dt) * 10)) / 10)
+    return eq, a, u0
 
 
 def gen_sched(rng, numbers, dt, t0, t1, hist, adversarial=True):
@@ -903,7 +1185,7 @@ def gen_sched(rng, numbers, dt, t0, t1, hist, adversarial=True):
     return {"kind": "oracle", "answers": ans}
 
 
-def gen_trackers(rng, numbers, dt, t0, t1, hist, n=None):
+def gen_trackers(rng, numbers, dt, t0, t1, hist, n=None, shared_objects=False):
     if n is None:
         n = rng.choice([0, 1, 1, 2, 2, 3, 4])
     out = []
@@ -916,5 +1198,10 @@ def gen_trackers(rng, numbers, dt, t0, t1, hist, n=None):
         # several trackers due together: duplicate a schedule
         out[-1] = dict(out[-1], sched=dict(out[0]["sched"]))
         hist("tracker", "duplicate-schedule")
+        if shared_objects and out[0]["sched"]["kind"] not in ("geometric", "oracle") and rng.random() < 0.5:
+            # ... by handing the very same interrupt object to both trackers (not instrumented, see `execute`)
+            out[0] = dict(out[0], no_record=True, via_parse=False)
+            out[-1] = dict(out[-1], shared_with=0, no_record=True, via_parse=False)
+            hist("tracker", "shared-interrupt-object")
     hist("n_trackers", n)
     return out
